@@ -3,7 +3,7 @@
    Proof files: CanonFacts.v (preferMove), Canon1-4.v (the loop of Canonical), on top of C14 (SymRules*.v, SymCode*.v) and C01. *)
 From Coq Require Import NArith ZArith List Bool.
 Require Import Rules SymRules2.
-Require Import Board Move GameOver Tps Symmetry CanonFacts Refine Preserve5 Canon1 Canon2 Canon2b Canon3 Canon4 Canon5 Canon9 Canon10.
+Require Import Board Move GameOver Tps Symmetry CanonFacts Refine Preserve5 Canon1 Canon2 Canon2b Canon3 Canon4 Canon5 Canon9 Canon10 Canon12.
 Require Import SymCode1.
 Require Import Generated.Consts.
 Close Scope Z_scope. Close Scope N_scope.
@@ -65,8 +65,8 @@ Print Assumptions C15_example64_hypotheses_hold.
    Proof: both runs keep the same boards; in canonical coordinates the two moves differ by an element of the stabiliser of board 0; the candidate
    loop computes the preferMove-minimum over exactly that stabiliser (NoCollision one way, C08's equal_complete - same squares => same hash -
    the other way), which is a group, and preferMove is a strict total order on an orbit: the same minimum.
-   Stated for accepted games (canonical ms = Ok cs; then ms is legal by canonical_legal_images).  NOT proved: that every legal game is
-   accepted (canonical ms = Ok _ for legal ms), so for a game Canonical rejects the theorem says nothing about its images. *)
+   Stated first for accepted games (canonical ms = Ok cs; then ms is legal by canonical_legal_images); the form of DESIGN 5.15 - for every
+   LEGAL game, canonical (image) = canonical ms, and it is accepted - follows below (C15_canonical_total, C15_canonical_class_invariant_legal). *)
 Theorem C15_canonical_class_invariant : forall sz, (3 <= sz <= 6)%N -> forall g ms cs, g < 8 ->
   Forall canon_input ms -> nocoll_trace sz ms -> canonical gen_basis sz ms = Ok cs ->
   canonical gen_basis sz (map (tmr g (N.to_nat sz)) ms) = Ok cs.
@@ -78,6 +78,31 @@ Theorem C15_canonical_class_invariant64 : forall sz, (3 <= sz <= 8)%N -> forall 
   canonical gen_basis sz (map (tmr g (N.to_nat sz)) ms) = Ok cs.
 Proof. exact canonical_class_invariant64. Qed.
 Print Assumptions C15_canonical_class_invariant64.
+
+(* Canonical accepts every legal game: if ms is legal by the rules from the start position (play ... = Some B; no other condition on the
+   move values: legality already forces type code 2..8, at least one drop in a slide, on-board origins), Canonical returns a canonical form
+   - it neither rejects nor panics.  With it, class invariance in the form of DESIGN 5.15. *)
+Theorem C15_canonical_total : forall sz, (3 <= sz <= 6)%N -> forall ms B,
+  nocoll_trace sz ms -> play (P0 sz) (map raw ms) = Some B -> exists cs, canonical gen_basis sz ms = Ok cs.
+Proof. exact canonical_total. Qed.
+Print Assumptions C15_canonical_total.
+
+Theorem C15_canonical_class_invariant_legal : forall sz, (3 <= sz <= 6)%N -> forall g ms B, g < 8 ->
+  nocoll_trace sz ms -> play (P0 sz) (map raw ms) = Some B ->
+  canonical gen_basis sz (map (tmr g (N.to_nat sz)) ms) = canonical gen_basis sz ms /\ exists cs, canonical gen_basis sz ms = Ok cs.
+Proof. exact canonical_class_invariant_legal. Qed.
+Print Assumptions C15_canonical_class_invariant_legal.
+
+Theorem C15_canonical_total64 : forall sz, (3 <= sz <= 8)%N -> forall ms B,
+  nocoll_trace sz ms -> sc_trace sz heights64 ms -> play (P0 sz) (map raw ms) = Some B -> exists cs, canonical gen_basis sz ms = Ok cs.
+Proof. exact canonical_total64. Qed.
+Print Assumptions C15_canonical_total64.
+
+Theorem C15_canonical_class_invariant_legal64 : forall sz, (3 <= sz <= 8)%N -> forall g ms B, g < 8 ->
+  nocoll_trace sz ms -> sc_trace sz heights64 ms -> play (P0 sz) (map raw ms) = Some B ->
+  canonical gen_basis sz (map (tmr g (N.to_nat sz)) ms) = canonical gen_basis sz ms /\ exists cs, canonical gen_basis sz ms = Ok cs.
+Proof. exact canonical_class_invariant_legal64. Qed.
+Print Assumptions C15_canonical_class_invariant_legal64.
 
 (* DESIGN 5.15 canonical_idempotent: the canonical form is a fixed point. *)
 Theorem C15_canonical_idempotent : forall sz, (3 <= sz <= 6)%N -> forall ms cs,
